@@ -22,9 +22,9 @@ claim("C20",
 
 claim("C12",
       "Class invariant of ConjugateGradient proved inductively on the real __init__/_update/_done run on abstract vectors: r = b - A x, "
-      "rzold = <r,Pr>, resid = sqrt(rzold), p = z + beta p_old with beta = rz_new/rz_old, local conjugacy L1-L3, exact A-norm error decrease "
+      "rzold = <r,Pr>, resid = sqrt(rzold), p = z + beta p_old with beta = rz_new/rz_old, local conjugacy L1-L3 and the induction step of global conjugacy against every earlier direction (G1/G2), exact A-norm error decrease "
       "rz^2/pAp, in-place update of the caller's x, breakdown (pAp <= 0) leaves the state untouched and stops; all dimensions, all iteration counts.",
-      "Gram-matrix abstraction of an inner-product space; A, P self-adjoint; Krylov optimality / n-step termination cited from the proved local invariants; floats as reals.",
+      "Gram-matrix abstraction of an inner-product space; A, P self-adjoint; global conjugacy proved by induction step (induction principle trusted); Krylov optimality / n-step termination cited from the proved conjugacy; floats as reals.",
       "contract-based deductive verification (inductive class invariant; real method bodies executed on Gram-domain vectors; z3 QF_NRA)")
 claim("C13",
       "Per-step contracts proved on the real GradientMethod._update and PrimalDualHybridGradient._update: conformance to ISTA/FISTA and "
